@@ -457,12 +457,10 @@ def missingRows (b : Build) (rows : List Row) : R (List Row × Option Nat) := do
               let between := (rows.drop (l + 1)).take (p.1 - (l + 1))
               if between.all Row.isGap then pure (out ++ between)     -- only gaps separate the two contigs: keep them all
               else
-                match rows.getD (p.1 - 1) default with
-                | .gap g => pure (out ++ [Row.gap g])
-                | .frag _ =>
-                  match b.joinGap with
-                  | some g => pure (out ++ [Row.gap g])
-                  | none => throw .attribute
+                -- contigs placed elsewhere lay between these two (fix 9be92a2): the default gap
+                match b.joinGap with
+                | some g => pure (out ++ [Row.gap g])
+                | none => throw .attribute
             else pure out
           | none => pure out
         pure (out ++ [Row.frag f], some p.1, (match first with | some x => some x | none => some p.1))) ([], none, none)
